@@ -60,7 +60,14 @@ def cli_case(item, acc):
     for flag in it:
         value = next(it)
         values[{'-go-low': 'low', '-go-up': 'up', '-go-eps': 'eps', '-go-res-dist': 'res_dist'}[flag]] = float(value) if flag != '-go-res-dist' else int(value)
-    atoms = [dict(a) for a in c11.load_atoms(name) if a['element'] != 'H']
+    atoms = [dict(a) for a in c11.load_atoms(name.split('~')[0]) if a['element'] != 'H']
+    if name.endswith('~from0'):
+        # the same chain numbered from 0: a residue number that is falsy
+        low = min(a['res'][1] for a in atoms)
+        for atom in atoms:
+            resid = atom['res'][1] - low
+            atom['line'] = atom['line'][:22] + '%4d' % resid + atom['line'][26:]
+            atom['res'] = (atom['res'][0], resid, atom['res'][2])
     residues = []
     for atom in atoms:
         key = (atom['res'][0], atom['res'][1])
@@ -225,7 +232,7 @@ def items(tier):
     for name in ('bta3-12', 'bta-two-chains-6', 'bta15-22'):
         for label in ('default', 'resdist1') if tier == 'quick' else list(OPTIONS):
             yield name, 'internal', label
-    for name in ('bta3-12', 'bta-two-chains-6'):
+    for name in ('bta3-12', 'bta-two-chains-6', 'bta3-12~from0'):
         for kind in CONTACT_SETS:
             for label in OPTIONS:
                 if tier == 'quick' and kind != 'one-directional-mix' and label not in ('default', 'resdist1', 'zeros'):
